@@ -112,6 +112,8 @@ class Socket(base_socket.BaseSocket):
             body = environ['wsgi.input'].read(length).decode('utf-8')
             p = payload.Payload(encoded_payload=body)
             for pkt in p.packets:
+                if self.closed:
+                    break
                 self.receive(pkt)
 
     def close(self, wait=True, abort=False, reason=None):
@@ -231,7 +233,7 @@ class Socket(base_socket.BaseSocket):
                         '%s: Unexpected error "%s", closing connection',
                         self.sid, str(e))
                 break
-            if p is None:
+            if p is None or self.closed:
                 # connection closed by client
                 break
             pkt = packet.Packet(encoded_packet=p)
